@@ -3,6 +3,8 @@
 A path is identified by the list of decisions taken at symbolic choice points.  The
 function under verification is re-executed from fresh inputs for each path.
 """
+import os
+
 try:
     import z3
 except ImportError:      # replays run under the repository's interpreter, without z3
@@ -30,6 +32,7 @@ FORCE_FORK = 'F'
 MERGE = 'M'
 
 FEAS_TIMEOUT_MS = 5000
+INCREMENTAL_TIMEOUT_MS = 1000
 
 
 def _conjuncts(t):
@@ -56,13 +59,90 @@ def _has_quantifier(t):
     return False
 
 
+_ARITH_OPS = None
+
+
+def _arith_ops():
+    global _ARITH_OPS
+    if _ARITH_OPS is None:
+        _ARITH_OPS = {z3.Z3_OP_ADD, z3.Z3_OP_SUB, z3.Z3_OP_MUL, z3.Z3_OP_UMINUS, z3.Z3_OP_LE, z3.Z3_OP_LT,
+                      z3.Z3_OP_GE, z3.Z3_OP_GT, z3.Z3_OP_EQ, z3.Z3_OP_DISTINCT, z3.Z3_OP_ITE, z3.Z3_OP_AND,
+                      z3.Z3_OP_OR, z3.Z3_OP_NOT, z3.Z3_OP_IMPLIES, z3.Z3_OP_IFF, z3.Z3_OP_TRUE, z3.Z3_OP_FALSE,
+                      z3.Z3_OP_ANUM, z3.Z3_OP_IDIV, z3.Z3_OP_MOD}
+    return _ARITH_OPS
+
+
+def is_length_arith(t, _memo=None):
+    """t is built from integer arithmetic, propositional structure, integer/boolean constants and
+    lengths of strings only (the strings themselves are not inspected)."""
+    if _memo is None:
+        _memo = {}
+    i = t.get_id()
+    r = _memo.get(i)
+    if r is not None:
+        return r
+    r = False
+    if z3.is_quantifier(t) or not z3.is_app(t):
+        r = False
+    elif not (z3.is_int(t) or z3.is_bool(t)):
+        r = False
+    else:
+        k = t.decl().kind()
+        if k == z3.Z3_OP_SEQ_LENGTH:
+            r = True
+        elif k == z3.Z3_OP_UNINTERPRETED and t.num_args() == 0:
+            r = True
+        elif k in _arith_ops():
+            r = all(is_length_arith(c, _memo) for c in t.children())
+    _memo[i] = r
+    return r
+
+
+def length_abstraction(t):
+    """A formula implied by t that speaks about integers and string lengths only (None = nothing kept)."""
+    if is_length_arith(t):
+        return t
+    if not z3.is_app(t):
+        return None
+    k = t.decl().kind()
+    if k == z3.Z3_OP_AND:
+        parts = [x for x in (length_abstraction(c) for c in t.children()) if x is not None]
+        return z3.And(*parts) if parts else None
+    if k == z3.Z3_OP_OR:
+        parts = [length_abstraction(c) for c in t.children()]
+        if any(x is None for x in parts):
+            return None
+        return z3.Or(*parts)
+    if k == z3.Z3_OP_IMPLIES:
+        a, b = t.children()
+        if not is_length_arith(a):
+            return None
+        bb = length_abstraction(b)
+        return z3.Implies(a, bb) if bb is not None else None
+    if k == z3.Z3_OP_EQ:
+        a, b = t.children()
+        if z3.is_string(a):
+            return z3.Length(a) == z3.Length(b)
+        return None
+    if k in (z3.Z3_OP_SEQ_PREFIX, z3.Z3_OP_SEQ_SUFFIX):
+        a, b = t.children()
+        return z3.Length(a) <= z3.Length(b)
+    if k == z3.Z3_OP_SEQ_CONTAINS:
+        a, b = t.children()
+        return z3.Length(b) <= z3.Length(a)
+    return None
+
+
 class PathState:
     def __init__(self, prefix, stats):
         self.prefix = list(prefix)
         self.decisions = []
         self.pending = []          # alternative prefixes discovered on this run
         self.solver = z3.Solver()
-        self.solver.set('timeout', FEAS_TIMEOUT_MS)
+        self.solver.set('timeout', INCREMENTAL_TIMEOUT_MS)
+        self._incremental_lost = 0 # number of `unknown` answers of the incremental solver on this path
+        self.len_solver = z3.Solver()   # integers and string lengths only (abstraction of pc): boundary questions
+        self.len_solver.set('timeout', 2000)
         self.pc = []               # permanent conjuncts (z3 terms)
         self.scopes = []           # temporary assumptions (merge scopes)
         self.counters = {}
@@ -129,14 +209,55 @@ class PathState:
         for c in _conjuncts(t):
             if not _has_quantifier(c):
                 self.solver.add(c)
+                la = length_abstraction(c)
+                if la is not None:
+                    self.len_solver.add(la)
+
+    def reset_pc(self, keep):
+        """Replace the path condition by a subset of its conjuncts (forgetting facts is sound: obligations
+        are proved from what remains)."""
+        self.pc[:] = list(keep)
+        self.solver = z3.Solver()
+        self.solver.set('timeout', INCREMENTAL_TIMEOUT_MS)
+        self.len_solver = z3.Solver()
+        self.len_solver.set('timeout', 2000)
+        for t in self.pc:
+            for c in _conjuncts(t):
+                if not _has_quantifier(c):
+                    self.solver.add(c)
+                    la = length_abstraction(c)
+                    if la is not None:
+                        self.len_solver.add(la)
 
     def check(self, *extra):
         """sat / unsat / unknown of pc + scopes + extra."""
         self.stats['feasibility_queries'] = self.stats.get('feasibility_queries', 0) + 1
         import time as _t
         t0 = _t.time()
-        r = self.solver.check(*([x for x in self.scopes if not _has_quantifier(x)] + list(extra)))
+        assumptions = [x for x in self.scopes if not _has_quantifier(x)] + list(extra)
+        if self._incremental_lost < 3:
+            r = self.solver.check(*assumptions)
+            if r == z3.unknown:
+                self._incremental_lost += 1
+        else:
+            r = z3.unknown
+        if r == z3.unknown:
+            # z3's incremental mode is much weaker on strings than a fresh solver on the same assertions
+            fresh = z3.Solver()
+            fresh.set('timeout', FEAS_TIMEOUT_MS)
+            fresh.add(self.solver.assertions())
+            fresh.add(*assumptions)
+            r = fresh.check()
         dt = _t.time() - t0
+        if dt > 1.0 and os.environ.get('PYVC_DUMP_SLOW'):
+            k = self.stats.get('n_dumped', 0)
+            self.stats['n_dumped'] = k + 1
+            if k < 5:
+                sv = z3.Solver()
+                sv.add(self.solver.assertions())
+                sv.add(*([x for x in self.scopes if not _has_quantifier(x)] + list(extra)))
+                with open(os.path.join(os.environ['PYVC_DUMP_SLOW'], 'slow%d.smt2' % k), 'w') as f:
+                    f.write('; %s %.2fs\n' % (r, dt) + sv.to_smt2())
         if dt > 1.0:
             self.stats.setdefault('slow_queries', []).append((round(dt, 2), str(r), [str(e)[:200] for e in extra]))
         return r
@@ -151,6 +272,43 @@ class PathState:
     def must_hold(self, t):
         """True iff ``t`` is entailed by the current path condition (+ scopes)."""
         r = self.check(z3.Not(t))
+        return r == z3.unsat
+
+    def _len_check(self, t):
+        sc = []
+        for x in self.scopes:
+            la = length_abstraction(x)
+            if la is not None:
+                sc.append(la)
+        self.stats['length_queries'] = self.stats.get('length_queries', 0) + 1
+        return self.len_solver.check(*(sc + [t]))
+
+    def _fork_by_lengths(self, t):
+        """A branch condition about integers / string lengths that the length abstraction of the path
+        condition already decides: (can_be_true, can_be_false), else None."""
+        if not is_length_arith(t):
+            return None
+        rt = self._len_check(t)
+        if rt == z3.unsat:
+            return (False, True)
+        rf = self._len_check(z3.Not(t))
+        if rf == z3.unsat:
+            return (True, False)
+        return None
+
+    def must_hold_lengths(self, t):
+        """Entailment of a question about integers and string lengths, decided on the length abstraction of
+        the path condition (sound: the abstraction is implied by the path condition; string facts beyond
+        lengths are not used).  Fast and independent of the string solver."""
+        if not is_length_arith(t):
+            return self.must_hold(t)
+        self.stats['length_queries'] = self.stats.get('length_queries', 0) + 1
+        sc = []
+        for x in self.scopes:
+            la = length_abstraction(x)
+            if la is not None:
+                sc.append(la)
+        r = self.len_solver.check(*(sc + [z3.Not(t)]))
         return r == z3.unsat
 
     # ---- decisions --------------------------------------------------------------
@@ -188,8 +346,12 @@ class PathState:
             if k is not None:
                 can_t, can_f = k, not k
             else:
-                can_t = self.is_feasible(t)
-                can_f = self.is_feasible(z3.Not(t)) if can_t else True
+                quick = self._fork_by_lengths(t)
+                if quick is not None:
+                    can_t, can_f = quick
+                else:
+                    can_t = self.is_feasible(t)
+                    can_f = self.is_feasible(z3.Not(t)) if can_t else True
                 if can_t != can_f:
                     self._record_known(t, can_t)
             if can_t and can_f:
@@ -242,6 +404,9 @@ class PathState:
             r = 'T' if k else 'N'
         elif _has_quantifier(t):
             r = 'U'
+        elif self._fork_by_lengths(t) is not None:
+            r = 'T' if self._fork_by_lengths(t)[0] else 'N'
+            self._record_known(t, r == 'T')
         elif self.must_hold(t):
             r = 'T'
             self._record_known(t, True)
